@@ -362,6 +362,28 @@ pub fn generate(name: &str, count: usize, rng: &mut Rng, out: &mut dyn Write) ->
                 n += run_section_progs(&format!("tlvssl-{}", i), &json!({"g": "tlvssl"}), &sec, &progs, out);
             }
         }
+        // every registered type (and a few others) with every value of a list of REALISTIC contents:
+        // protocol names, host names (ASCII, punycode, UTF-8), paths, '..', NUL inside, checksums,
+        // identifiers of 16 / 128 / 129 bytes, version strings - alone and between other items
+        "tlvreal" => {
+            let types: [u8; 16] = [0x01, 0x02, 0x03, 0x04, 0x05, 0x20, 0x21, 0x22, 0x23, 0x24, 0x25, 0x30, 0xEA, 0xEE, 0xE0, 0x00];
+            let values: Vec<Vec<u8>> = crate::builder::realistic_values();
+            let total = types.len() * values.len();
+            let take = count.min(total);
+            let step = total as f64 / take as f64;
+            let off = (rng.below(97) as f64) / 97.0 * step;
+            for i in 0..take {
+                let idx = ((off + i as f64 * step) as usize).min(total - 1);
+                let (t, v) = (types[idx % types.len()], &values[idx / types.len()]);
+                let mut sec = Vec::new();
+                if i % 3 == 1 { sec.extend(item(0x04, 1, 0)); }
+                sec.push(t);
+                sec.extend_from_slice(&(v.len() as u16).to_be_bytes());
+                sec.extend_from_slice(v);
+                if i % 2 == 0 { sec.extend(item(0xE1, 2, b'z')); }
+                n += run_section(&format!("tlvreal-{}", i), &json!({"g": "tlvreal"}), &sec, out);
+            }
+        }
         other => panic!("unknown tlv generator {}", other),
     }
     n
